@@ -194,6 +194,12 @@ def check_case(ctx, case, idx):
 
 
 def run(ctx: C.Ctx):
+    from .. import shapes_static, translate_ranking
+    shapes_static.run_with_translation(ctx, translate_ranking, "Ranking", "ranking-pipeline", lambda: _run(ctx),
+                                       "regenerated from SSPOR.fit / predict / get_selected_sensors: tail shuffle = tailShuffle σ m, reads = selectLead n_sensors")
+
+
+def _run(ctx: C.Ctx):
     rng = ctx.rng
     hs = []
     for idx in range(ctx.scale(200, 3000)):
